@@ -6,9 +6,11 @@ require (
 	github.com/cossacklabs/acra v0.0.0
 	github.com/cossacklabs/pg_query_go/v5 v5.1.0
 	github.com/cossacklabs/themis/gothemis v0.14.0
+	github.com/gin-gonic/gin v1.9.1
 	github.com/jackc/pgx/v5 v5.7.2
 	github.com/sirupsen/logrus v1.6.0
 	go.etcd.io/bbolt v1.3.6
+	golang.org/x/net v0.38.0
 	google.golang.org/grpc v1.56.3
 	gopkg.in/yaml.v2 v2.4.0
 	pgregory.net/rapid v1.3.0
@@ -37,7 +39,6 @@ require (
 	github.com/fatih/color v1.16.0 // indirect
 	github.com/gabriel-vasile/mimetype v1.4.2 // indirect
 	github.com/gin-contrib/sse v0.1.0 // indirect
-	github.com/gin-gonic/gin v1.9.1 // indirect
 	github.com/go-openapi/jsonpointer v0.19.6 // indirect
 	github.com/go-openapi/jsonreference v0.20.2 // indirect
 	github.com/go-openapi/spec v0.20.9 // indirect
@@ -98,7 +99,6 @@ require (
 	go.opencensus.io v0.24.0 // indirect
 	go.uber.org/atomic v1.10.0 // indirect
 	golang.org/x/crypto v0.36.0 // indirect
-	golang.org/x/net v0.38.0 // indirect
 	golang.org/x/sync v0.12.0 // indirect
 	golang.org/x/sys v0.31.0 // indirect
 	golang.org/x/text v0.23.0 // indirect
